@@ -449,9 +449,9 @@ static void emitCall(const CallBase& CB, FnCtx& C, const Function& F)
          if(!CB.getType()->isVoidTy() && !CB.getType()->isEmptyTy()) os << "  " << lhs << zeroOf(CB.getType()) << ";\n";
          return;
       }
-      // variable-length copies inside libstdc++ code (char_traits::copy/move/assign on short strings): byte loops, because
-      // CBMC's built-in memcpy/memmove with a symbolic length builds array-theory formulas that exhaust memory
-      bool byteLoop = CB.arg_size() > 2 && !isa<ConstantInt>(CB.getArgOperand(2)) && dem(F).rfind("std::", 0) == 0;
+      // copies whose length is not a compile-time constant: byte loops, because CBMC's built-in memcpy/memmove with a
+      // symbolic length builds array-theory formulas that exhaust memory or lose the copied contents
+      bool byteLoop = CB.arg_size() > 2 && !isa<ConstantInt>(CB.getArgOperand(2));
       const char* sfx = byteLoop ? "vp_" : "";
       const char* sfx2 = byteLoop ? "_bytes" : "";
       if(n.startswith("llvm.memcpy")) { os << "  " << sfx << "memcpy" << sfx2 << "(" << arg(0) << ", " << arg(1) << ", " << arg(2) << ");\n"; return; }
@@ -667,6 +667,16 @@ static void emitFunction(const Function& F, raw_ostream& out)
          case Instruction::FPToUI: os << "  " << n << " = " << maskTo(T, "(" + intTy(T->getIntegerBitWidth(), false) + ")" + op(0)) << ";\n"; break;
          case Instruction::Add: case Instruction::Sub: case Instruction::Mul:
          {
+            if(I.getOpcode() == Instruction::Sub && T->isIntegerTy(64))
+            {
+               // pointer difference: CBMC folds offset differences within one object, but never (u64)p - (u64)q
+               auto* P0 = dyn_cast<PtrToIntOperator>(I.getOperand(0)); auto* P1 = dyn_cast<PtrToIntOperator>(I.getOperand(1));
+               if(P0 && P1)
+               {
+                  os << "  " << n << " = VP_PTRDIFF(" << val(P0->getPointerOperand(), &C) << ", " << val(P1->getPointerOperand(), &C) << ");\n";
+                  break;
+               }
+            }
             const char* o = I.getOpcode() == Instruction::Add ? "+" : I.getOpcode() == Instruction::Sub ? "-" : "*";
             auto* OB = cast<OverflowingBinaryOperator>(&I);
             unsigned bw = T->getIntegerBitWidth();
@@ -963,7 +973,18 @@ int main(int argc, char** argv)
    {
       if(G.getName().startswith("llvm.")) continue;
       Type* VT = G.getValueType();
-      if(!G.hasInitializer() && !G.use_empty())
+      std::function<bool(const Value*, std::set<const Value*>&)> usedByEmitted = [&](const Value* V, std::set<const Value*>& seen) -> bool
+      {
+         if(!seen.insert(V).second) return false;
+         for(const User* U : V->users())
+         {
+            if(auto* I = dyn_cast<Instruction>(U)) { if(!isCut(*I->getFunction())) return true; }
+            else if(usedByEmitted(U, seen)) return true;
+         }
+         return false;
+      };
+      std::set<const Value*> seenU;
+      if(!G.hasInitializer() && usedByEmitted(&G, seenU))
       {
          // a referenced global that no linked translation unit defines: only the C++ runtime's own objects are
          // tolerated (as zero objects); anything else would silently read as 0 in the encoding
